@@ -221,7 +221,7 @@ def target_fn(text):
 
 
 COV_MODEL = """
-pub struct Pattern { pub id: u64 }
+pub enum Pattern { Wildcard, Other(u64) }
 pub struct Transition { pub id: u64 }
 pub struct Guard { pub condition: Pattern, pub transitions: Vec<Transition> }
 pub struct Comment { pub id: u64 }
